@@ -271,18 +271,6 @@ fn res_orders() -> Vec<ResCh> {
     }
     v
 }
-/// every ordered selection of lo..=hi distinct items out of n
-fn ordered_selections(n: usize, lo: usize, hi: usize) -> Vec<Vec<usize>> {
-    fn rec(n: usize, hi: usize, cur: &mut Vec<usize>, out: &mut Vec<Vec<usize>>, lo: usize) {
-        if cur.len() >= lo { out.push(cur.clone()) }
-        if cur.len() == hi { return }
-        for i in 0..n { if !cur.contains(&i) { cur.push(i); rec(n, hi, cur, out, lo); cur.pop(); } }
-    }
-    let mut out = vec![]; rec(n, hi, &mut vec![], &mut out, lo);
-    out.sort_by(|a, b| a.len().cmp(&b.len()).then(a.cmp(b)));
-    out
-}
-
 //============ Signer wrapper =================================================
 
 /// The pool signer with a chosen one-off key and chosen "random" octets, so
@@ -897,21 +885,23 @@ impl SoSpec {
 }
 
 /// Validates a decoded signed object (any content type) at both window ends
-/// through `SignedObject::validate_at`.
-fn validate_signed(d: &Dom, r: &mut CaseResult, bytes: &[u8], so: &SoSpec) -> Option<SignedObject> {
+/// through `SignedObject::validate_at`; returns the object and the validated
+/// EE certificates (one per instant that was accepted).
+fn validate_signed(d: &Dom, r: &mut CaseResult, bytes: &[u8], so: &SoSpec) -> Option<(SignedObject, Vec<ResourceCert>)> {
     let signed = match guard(|| SignedObject::decode(bytes, true)) {
         Ok(Ok(s)) => s,
         Ok(Err(e)) => { r.fail("decode", format!("as SignedObject: {e}")); return None }
         Err(p) => { r.fail("decode", p); return None }
     };
+    let mut certs = vec![];
     for now in [d.instants[so.win.0], d.instants[so.win.1]] {
         match guard(|| signed.clone().validate_at(&d.ta, true, now)) {
-            Ok(Ok(_)) => {}
+            Ok(Ok(c)) => certs.push(c),
             Ok(Err(e)) => { r.fail("validate", format!("rejected at {}: {e}", r_time(now))); break }
             Err(p) => { r.fail("validate", p); break }
         }
     }
-    Some(signed)
+    Some((signed, certs))
 }
 
 #[derive(Clone, Debug)]
@@ -971,9 +961,14 @@ fn space_sigobj(ctx: &Ctx, d: &Dom) {
 
 //============ Manifests ======================================================
 
+/// File-list entries chosen for their relations: 0/1 differ in case only,
+/// 0/2 share the stem, 0/3 are neighbours in any ordering, 4 is the name 0
+/// again with another hash (a repeated name), 5 needs a long-form length.
+/// Lists are sequences with repetition, so exact duplicates occur as well.
 fn mft_files() -> Vec<(Vec<u8>, Vec<u8>)> {
-    let names: Vec<String> = vec!["a.roa".into(), "A-b_9.cer".into(), "x.mft".into(), format!("{}.crl", "n".repeat(130)), "0.asa".into()];
-    names.iter().map(|n| (n.as_bytes().to_vec(), sha256(n.as_bytes()))).collect()
+    let names: Vec<(String, &str)> = vec![("a.roa".into(), "a.roa"), ("A.roa".into(), "A.roa"), ("a.cer".into(), "a.cer"), ("b.roa".into(), "b.roa"),
+        ("a.roa".into(), "other content"), (format!("{}.crl", "n".repeat(130)), "long")];
+    names.iter().map(|(n, content)| (n.as_bytes().to_vec(), sha256(content.as_bytes()))).collect()
 }
 
 #[derive(Clone, Debug)]
@@ -981,15 +976,21 @@ struct MftCase { number: usize, this: usize, next: usize, files: Vec<usize>, so:
 
 fn space_manifest(ctx: &Ctx, d: &Dom) {
     let sp = ctx.space("build.manifest",
-        "ManifestContent::new + into_manifest -> Manifest::decode(strict) -> validate_at: manifest number x (thisUpdate <= nextUpdate over the 5 instants) x every ordered selection of 0-3 files out of 4 (5 thorough; one name of 134 octets) x EE settings; non-trivial = distinct DER; outcome = number of files");
+        "ManifestContent::new + into_manifest -> Manifest::decode(strict) -> SignedObject::validate_at + Manifest::validate_at at both window ends: manifest number x (thisUpdate <= nextUpdate over the 5 instants) x every sequence (with repetition) of 0-3 file entries out of 6 chosen for their relations (case-only difference, same stem, neighbours, the same name with another hash, exact duplicates, one name of 134 octets) x EE settings; quick thins the number x window grid for lists of >= 2 entries to 3 x 3, thorough for lists of 3 to (all numbers x 3 windows) + (one number x all windows); non-trivial = distinct DER; outcome = number of files measured on the twin");
     let files = mft_files();
-    let nfiles = ctx.tier.pick(4, 5);
-    let lists = ordered_selections(nfiles, 0, 3);
+    let thorough = ctx.tier.is_thorough();
+    let nfiles = files.len();
+    let lists = sequences(nfiles, 0, 3);
     let mut cases = vec![];
+    let few_numbers = [0usize, 3, 5];
+    let few_windows = [(1usize, 3usize), (0, 4), (2, 2)];
     for n in 0..d.serials.len() { for &(a, b) in &d.windows { for l in &lists {
+        // quick: the full number x window grid for lists of <= 1 entry, three numbers x three windows for the longer ones
+        if !thorough && l.len() > 1 && !(few_numbers.contains(&n) && few_windows.contains(&(a, b))) { continue }
+        if thorough && l.len() == 3 && !few_windows.contains(&(a, b)) && !(n == 3) { continue }
         cases.push(MftCase { number: n, this: a, next: b, files: l.clone(), so: SoSpec::base() });
     }}}
-    for so in SoSpec::reps().into_iter().skip(1) { for n in [0usize, 3, 5] { for &(a, b) in &d.windows { for l in lists.iter().filter(|l| l.len() != 2) {
+    for so in SoSpec::reps().into_iter().skip(1) { for n in [0usize, 5] { for &(a, b) in &few_windows { for l in lists.iter().filter(|l| l.len() <= 2) {
         cases.push(MftCase { number: n, this: a, next: b, files: l.clone(), so: so.clone() });
     }}}}
     let base_uri = d.dirs[1].clone();
@@ -1011,7 +1012,7 @@ fn space_manifest(ctx: &Ctx, d: &Dom) {
             let Some((bytes, decoded)) = twin(&mut r, &built, |m| m.to_captured().as_slice().to_vec(),
                 |b| Manifest::decode(b, true).map_err(|e| e.to_string()), |m| obs_manifest(m, &base_uri)) else { r.label = "no-twin".into(); return r };
             r.label = format!("{} files", decoded.content().iter().count());
-            if let Some(signed) = validate_signed(d, &mut r, &bytes, &c.so) {
+            if let Some((signed, _)) = validate_signed(d, &mut r, &bytes, &c.so) {
                 // (iv) the decoded content re-encodes to the eContent octets
                 match guard(|| cap(decoded.content().encode_ref())) {
                     Ok(e) => if e != signed.content().to_bytes().as_ref() { r.fail("content_reencode", format!("encode_ref()={} eContent={}", hex(&e), hex(&signed.content().to_bytes()))) },
@@ -1028,29 +1029,55 @@ fn space_manifest(ctx: &Ctx, d: &Dom) {
             }
             r
         });
-    sp.done(true, &format!("{} input tuples; file lists of 0-3 out of {} in every order", cases.len(), nfiles));
+    sp.done(true, &format!("{} input tuples; {} file lists (sequences of 0-3 out of {} with repetition)", cases.len(), lists.len(), nfiles));
 }
 
 //============ ROAs ===========================================================
 
-/// (address, prefix length, max-length choice) — max-length {none, = len, > len}
-fn roa_alphabet(v4: bool, nprefixes: usize) -> Vec<RoaIpAddress> {
-    let pfx: Vec<(IpAddr, u8, u8)> = if v4 {
-        // the first prefix covers the two (disjoint) next ones, so insertion
-        // orders include "covering prefix after both covered ones"
-        vec![(IpAddr::V4(Ipv4Addr::new(10, 0, 0, 0)), 8, 32), (IpAddr::V4(Ipv4Addr::new(10, 1, 0, 0)), 16, 17),
-             (IpAddr::V4(Ipv4Addr::new(10, 3, 0, 0)), 24, 25), (IpAddr::V4(Ipv4Addr::new(0, 0, 0, 0)), 0, 1)]
+/// The ROA entry alphabet is built around RELATIONS between entries rather
+/// than single entries. Entries 0..ROA_CORE carry no maxLength:
+///   0  the covering prefix                       10.0.0.0/8        2001:db8::/32
+///   1  same network address, more specific       10.0.0.0/16       2001:db8::/48
+///   2  same network address, more specific still 10.0.0.0/24       2001:db8::/64
+///   3  adjacent to 1 (merges into one block)     10.1.0.0/16       2001:db8:1::/48
+///   4  inside 0, apart from 1..3 (bridging)      10.3.0.0/24       2001:db8:4000::/34
+///   5  the whole space                           0.0.0.0/0         ::/0
+/// and the rest: the identical prefix with other maxLengths (= len, > len),
+/// and the top of the space:
+///   6  = 0 with maxLength = len     7  = 0 with maxLength = family width
+///   8  = 1 with maxLength = len+1   9  the last address (/32, /128)
+/// Lists are sequences WITH repetition, so exact duplicates, the same prefix
+/// with different maxLengths, and same-address prefixes in both orders,
+/// adjacent or separated by a third entry, all occur.
+const ROA_CORE: usize = 6;
+fn roa_alphabet(v4: bool) -> Vec<RoaIpAddress> {
+    let a = |x: [u16; 8]| IpAddr::V6(Ipv6Addr::new(x[0], x[1], x[2], x[3], x[4], x[5], x[6], x[7]));
+    let q = |x: [u8; 4]| IpAddr::V4(Ipv4Addr::new(x[0], x[1], x[2], x[3]));
+    let e = RoaIpAddress::new_addr;
+    if v4 {
+        vec![e(q([10, 0, 0, 0]), 8, None), e(q([10, 0, 0, 0]), 16, None), e(q([10, 0, 0, 0]), 24, None), e(q([10, 1, 0, 0]), 16, None),
+             e(q([10, 3, 0, 0]), 24, None), e(q([0, 0, 0, 0]), 0, None),
+             e(q([10, 0, 0, 0]), 8, Some(8)), e(q([10, 0, 0, 0]), 8, Some(32)), e(q([10, 0, 0, 0]), 16, Some(17)), e(q([255, 255, 255, 255]), 32, None)]
     } else {
-        vec![(IpAddr::V6(Ipv6Addr::new(0x2001, 0xdb8, 0, 0, 0, 0, 0, 0)), 32, 128), (IpAddr::V6(Ipv6Addr::new(0x2001, 0xdb8, 0x8000, 0, 0, 0, 0, 0)), 33, 48),
-             (IpAddr::V6(Ipv6Addr::new(0x2001, 0xdb8, 0x4000, 0, 0, 0, 0, 0)), 34, 35), (IpAddr::V6(Ipv6Addr::new(0, 0, 0, 0, 0, 0, 0, 0)), 0, 64)]
-    };
-    let mut v = vec![];
-    for (a, len, more) in pfx.into_iter().take(nprefixes) {
-        v.push(RoaIpAddress::new_addr(a, len, None));
-        v.push(RoaIpAddress::new_addr(a, len, Some(len)));
-        v.push(RoaIpAddress::new_addr(a, len, Some(more)));
+        vec![e(a([0x2001, 0xdb8, 0, 0, 0, 0, 0, 0]), 32, None), e(a([0x2001, 0xdb8, 0, 0, 0, 0, 0, 0]), 48, None), e(a([0x2001, 0xdb8, 0, 0, 0, 0, 0, 0]), 64, None),
+             e(a([0x2001, 0xdb8, 1, 0, 0, 0, 0, 0]), 48, None), e(a([0x2001, 0xdb8, 0x4000, 0, 0, 0, 0, 0]), 34, None), e(a([0, 0, 0, 0, 0, 0, 0, 0]), 0, None),
+             e(a([0x2001, 0xdb8, 0, 0, 0, 0, 0, 0]), 32, Some(32)), e(a([0x2001, 0xdb8, 0, 0, 0, 0, 0, 0]), 32, Some(128)), e(a([0x2001, 0xdb8, 0, 0, 0, 0, 0, 0]), 48, Some(49)),
+             e(a([0xffff; 8]), 128, None)]
     }
-    v
+}
+
+/// every sequence (repetition allowed) of lo..=hi items out of n, shortest first
+fn sequences(n: usize, lo: usize, hi: usize) -> Vec<Vec<usize>> {
+    let mut out: Vec<Vec<usize>> = vec![];
+    let mut layer: Vec<Vec<usize>> = vec![vec![]];
+    for len in 0..=hi {
+        if len >= lo { out.extend(layer.iter().cloned()) }
+        if len == hi { break }
+        let mut next = vec![];
+        for s in &layer { for i in 0..n { let mut t = s.clone(); t.push(i); next.push(t) } }
+        layer = next;
+    }
+    out
 }
 
 #[derive(Clone, Debug)]
@@ -1063,18 +1090,20 @@ fn r_roa_list(al: &[RoaIpAddress], l: &[usize], v4: bool) -> String {
 
 fn space_roa(ctx: &Ctx, d: &Dom) {
     let sp = ctx.space("build.roa",
-        "RoaBuilder (push / push_addr / extend_from_slice) + finalize -> Roa::decode(strict) -> SignedObject::validate_at (+ Roa::process when the window contains the wall clock): asID x every ordered selection of 0-3 entries per family out of {prefixes} x {no maxLength, = len, > len}, one family exhaustively against fixed lists of the other, plus all pairs of lists of <= 2 (v4) x <= 1 (v6) and vice versa, x EE settings; never both families empty (documented panic); non-trivial = distinct DER; outcome = families present");
-    let np = ctx.tier.pick(3, 4);
-    let a4 = roa_alphabet(true, np); let a6 = roa_alphabet(false, np);
-    let lists = ordered_selections(a4.len(), 0, 3);
+        "RoaBuilder (push / push_addr / extend_from_slice) + finalize -> Roa::decode(strict) -> SignedObject::validate_at at both window ends + prefix coverage by the validated EE certificate + Roa::process (windows containing the wall clock; all EE settings used here do): entry alphabet of 10 per family built around relations (covering prefix; same network address at 3 lengths; adjacent prefixes that merge; covered-and-apart; 0/0; last address; identical prefix with maxLength none / = len / > len); lists are sequences WITH repetition (duplicates, both orders, adjacent or separated): quick = all of length <= 2 plus all of length 3 over the 6 relation entries, thorough = all of length <= 3; one family exhaustively against 3 fixed lists of the other, plus all pairs of lists <= 2 x <= 1 both ways x asID x EE settings; never both families empty (documented panic); non-trivial = distinct DER; outcome = families present");
+    let thorough = ctx.tier.is_thorough();
+    let a4 = roa_alphabet(true); let a6 = roa_alphabet(false);
+    // quick: every sequence of <= 2 entries over the whole alphabet and every
+    // sequence of 3 over the relation core; thorough: every sequence of <= 3
+    let mut lists = sequences(a4.len(), 0, if thorough { 3 } else { 2 });
+    if !thorough { lists.extend(sequences(ROA_CORE, 3, 3)) }
     let short2: Vec<&Vec<usize>> = lists.iter().filter(|l| l.len() <= 2).collect();
     let short1: Vec<&Vec<usize>> = lists.iter().filter(|l| l.len() <= 1).collect();
     let asns = [0u32, 1, 65535, 65536, 4294967295];
     let base = SoSpec::base();
     let mut cases = vec![];
-    let thorough = ctx.tier.is_thorough();
-    for l in &lists { for other in [vec![], vec![2usize], vec![4, 0]] { for mode in 0..3u8 {
-        if !thorough && mode != 0 && l.len() > 2 { continue }
+    for l in &lists { for other in [vec![], vec![1usize], vec![9, 0]] { for mode in 0..3u8 {
+        if !thorough && mode != 0 && l.len() > 1 { continue }
         cases.push(RoaCase { asn: 65536, v4: l.clone(), v6: other.clone(), so: base.clone(), push_mode: mode });
         cases.push(RoaCase { asn: 65536, v4: other.clone(), v6: l.clone(), so: base.clone(), push_mode: mode });
     }}}
@@ -1109,10 +1138,22 @@ fn space_roa(ctx: &Ctx, d: &Dom) {
             r.label = format!("v4:{} v6:{}", !c.v4.is_empty(), !c.v6.is_empty());
             let Some((bytes, decoded)) = twin(&mut r, &built, |m| m.to_captured().as_slice().to_vec(),
                 |b| Roa::decode(b, true).map_err(|e| e.to_string()), obs_roa) else { return r };
-            if let Some(signed) = validate_signed(d, &mut r, &bytes, &c.so) {
+            if let Some((signed, ee_certs)) = validate_signed(d, &mut r, &bytes, &c.so) {
                 match guard(|| cap(decoded.content().encode_ref())) {
                     Ok(e) => if e != signed.content().to_bytes().as_ref() { r.fail("content_reencode", format!("encode_ref()={} eContent={}", hex(&e), hex(&signed.content().to_bytes()))) },
                     Err(p) => r.fail("content_reencode", p),
+                }
+                // RFC 9582 section 5 at every instant (Roa::process below can
+                // only be asked at the wall clock): every prefix of the ROA
+                // lies within the validated EE certificate's resources.
+                for rc in &ee_certs {
+                    let res = guard(|| {
+                        for x in decoded.content().v4_addrs().iter() { if !rc.v4_resources().contains_roa(&x) { return Err(format!("IPv4 {:?}", x.prefix())) } }
+                        for x in decoded.content().v6_addrs().iter() { if !rc.v6_resources().contains_roa(&x) { return Err(format!("IPv6 {:?}", x.prefix())) } }
+                        Ok(())
+                    });
+                    match res { Ok(Ok(())) => {}, Ok(Err(e)) => { r.fail("validate", format!("ROA prefix {e} is not covered by the EE certificate the builder made ({} / {})",
+                        r_ipblocks(rc.v4_resources(), true), r_ipblocks(rc.v6_resources(), false))); break }, Err(p) => { r.fail("validate", p); break } }
                 }
             }
             if c.so.contains_now() {
@@ -1126,7 +1167,7 @@ fn space_roa(ctx: &Ctx, d: &Dom) {
             r
         });
     sp.set("entries_per_family", serde_json::json!(a4.len()));
-    sp.done(true, &format!("{} input tuples; lists of 0-3 out of {} entries per family in every order", cases.len(), a4.len()));
+    sp.done(true, &format!("{} input tuples; {} lists per family over {} entries (sequences with repetition)", cases.len(), lists.len(), a4.len()));
 }
 
 //============ ASPAs ==========================================================
@@ -1136,12 +1177,19 @@ struct AspaCase { customer: u32, providers: Vec<u32>, via_new: bool, so: SoSpec 
 
 fn space_aspa(ctx: &Ctx, d: &Dom) {
     let sp = ctx.space("build.aspa",
-        "AspaBuilder::new(vec) and AspaBuilder::empty + add_provider in the given order + finalize -> Aspa::decode(strict) -> SignedObject::validate_at (+ Aspa::process when the window contains the wall clock): customer x every ordered selection of 1-3 providers out of the other boundary ASNs x EE settings; non-trivial = distinct DER; outcome = provider count");
-    let asns = [0u32, 1, 65535, 65536, 4294967295];
+        "AspaBuilder::new(vec) and AspaBuilder::empty + add_provider in the given order + finalize -> Aspa::decode(strict) -> SignedObject::validate_at at both window ends + customer covered by the validated EE certificate + Aspa::process (windows containing the wall clock): customer in {0, 1, 65536, MAX} x every sequence (with repetition) of 1-3 providers out of the other boundary ASNs and their neighbours {0, 1, 2, 65535, 65536, MAX-1, MAX} x EE settings; a repeated provider must be refused by the builder (outcome class), everything else must round-trip; non-trivial = distinct DER; outcome = provider count measured on the twin / refusal");
+    // boundary ASNs and their neighbours: adjacent pairs (0,1) (1,2)
+    // (65535,65536) (MAX-1,MAX); the customer sits next to its providers
+    let asns = [0u32, 1, 2, 65535, 65536, 4294967294, 4294967295];
+    let thorough = ctx.tier.is_thorough();
     let mut cases = vec![];
-    for &cust in &asns {
+    for &cust in &[0u32, 1, 65536, 4294967295] {
         let others: Vec<u32> = asns.iter().copied().filter(|a| *a != cust).collect();
-        for sel in ordered_selections(others.len(), 1, 3) { for via_new in [true, false] { for so in SoSpec::reps() {
+        // sequences with repetition: a provider named twice (next to each
+        // other or apart) must be refused by the builder, never built
+        for sel in sequences(others.len(), 1, 3) { for via_new in [true, false] { for (k, so) in SoSpec::reps().into_iter().enumerate() {
+            let dup = (1..sel.len()).any(|i| sel[..i].contains(&sel[i]));
+            if k != 0 && (dup || (!thorough && sel.len() == 3)) { continue }
             cases.push(AspaCase { customer: cust, providers: sel.iter().map(|&i| others[i]).collect(), via_new, so });
         }}}
     }
@@ -1150,6 +1198,7 @@ fn space_aspa(ctx: &Ctx, d: &Dom) {
         |c| {
             let mut r = CaseResult::default();
             let signer = c.so.signer(d);
+            let dup = (1..c.providers.len()).any(|i| c.providers[..i].contains(&c.providers[i]));
             let built = match guard(|| {
                 let provs: Vec<Asn> = c.providers.iter().map(|&a| Asn::from_u32(a)).collect();
                 let b = if c.via_new { AspaBuilder::new(Asn::from_u32(c.customer), provs).map_err(|e| e.to_string())? }
@@ -1157,6 +1206,8 @@ fn space_aspa(ctx: &Ctx, d: &Dom) {
                 b.finalize(c.so.builder(d), &signer, &Kid(0)).map_err(|e| e.to_string())
             }) {
                 Ok(Ok(x)) => x,
+                // a repeated provider is outside the profile; the builder says so
+                Ok(Err(e)) if dup && e.contains("duplicate") => { r.label = "duplicate provider refused".into(); return r }
                 Ok(Err(e)) => { r.fail("build", e); r.label = "build-failed".into(); return r }
                 Err(p) => { r.fail("build", p); r.label = "build-failed".into(); return r }
             };
@@ -1164,10 +1215,18 @@ fn space_aspa(ctx: &Ctx, d: &Dom) {
             let Some((bytes, decoded)) = twin(&mut r, &built, |m| m.to_captured().as_slice().to_vec(),
                 |b| Aspa::decode(b, true).map_err(|e| e.to_string()), obs_aspa) else { return r };
             r.label = format!("{} providers", decoded.content().provider_as_set().len());
-            if let Some(signed) = validate_signed(d, &mut r, &bytes, &c.so) {
+            if let Some((signed, ee_certs)) = validate_signed(d, &mut r, &bytes, &c.so) {
                 match guard(|| cap(decoded.content().encode_ref())) {
                     Ok(e) => if e != signed.content().to_bytes().as_ref() { r.fail("content_reencode", format!("encode_ref()={} eContent={}", hex(&e), hex(&signed.content().to_bytes()))) },
                     Err(p) => r.fail("content_reencode", p),
+                }
+                // the ASPA profile's certificate rules at every instant
+                for rc in &ee_certs {
+                    match guard(|| rc.as_resources().contains_asn(decoded.content().customer_as()) && !rc.as_cert().as_resources().is_inherited() && !rc.as_cert().has_ip_resources()) {
+                        Ok(true) => {}
+                        Ok(false) => { r.fail("validate", format!("customer AS not covered by / unsuitable EE certificate the builder made ({})", r_asres(rc.as_cert().as_resources()))); break }
+                        Err(p) => { r.fail("validate", p); break }
+                    }
                 }
             }
             if c.so.contains_now() {
@@ -1180,7 +1239,7 @@ fn space_aspa(ctx: &Ctx, d: &Dom) {
             }
             r
         });
-    sp.done(true, &format!("{} input tuples; provider sets of 1-3 out of 4 in every insertion order, both construction paths", cases.len()));
+    sp.done(true, &format!("{} input tuples; provider sequences of 1-3 out of 6 with repetition, both construction paths", cases.len()));
 }
 
 //============ CRLs ===========================================================
@@ -1190,26 +1249,35 @@ struct CrlCase { number: usize, this: usize, next: usize, entries: Vec<usize>, i
 
 fn space_crl(ctx: &Ctx, d: &Dom) {
     let sp = ctx.space("build.crl",
-        "TbsCertList::new(Vec<CrlEntry>) + into_crl -> Crl::decode -> verify_signature(issuing key): CRL number x (thisUpdate <= nextUpdate over the 5 instants) x every ordered selection of 0-3 entries out of {n} (entry i = serial_i revoked at instant_i, i.e. every serial and every time-encoding branch) x issuer name; contains() probed with all 6 serials, cached and uncached; non-trivial = distinct DER; outcome = number of entries in the DER");
-    let nent = ctx.tier.pick(4, 6);
-    // entry i: the i-th serial, revoked at the i-th instant (the 6th at T0)
-    let ent_ix: Vec<usize> = ctx.tier.pick(vec![0, 3, 4, 5], vec![0, 1, 2, 3, 4, 5]);
+        "TbsCertList::new(Vec<CrlEntry>) + into_crl -> Crl::decode -> verify_signature(issuing key): CRL number x (thisUpdate <= nextUpdate over the 5 instants) x every sequence (with repetition) of 0-3 entries out of 5 (7 thorough) chosen for their relations (the same serial with two dates, neighbours 127/128 and 0/1, exact duplicates, both ends of the serial space, every time-encoding branch) x issuer name; contains() probed with all 6 serials, cached and uncached; non-trivial = distinct DER; outcome = number of entries measured on the twin");
+    // Entries chosen for their relations: (serial index, instant index; 5 = T0)
+    //   0: 0 @ 1949        1: 128 @ 2050     2: 128 @ 1949 (the serial of 1 again, another date)
+    //   3: 127 @ 2049      (neighbour of 128 across the sign-octet boundary)
+    //   4: 2^159-1 @ T0    5: 1 @ 1950 (neighbour of 0)    6: 2^63 @ 9999
+    // Lists are sequences with repetition: exact duplicates, the same serial
+    // twice with different dates, neighbours in both orders.
+    let ent: Vec<(usize, usize)> = vec![(0, 0), (3, 3), (3, 0), (2, 2), (5, 5), (1, 1), (4, 4)];
+    let thorough = ctx.tier.is_thorough();
+    let nent = if thorough { 7 } else { 5 };
     let when = |i: usize| if i < 5 { d.instants[i] } else { pki::time(pki::T0) };
-    let lists = ordered_selections(nent, 0, 3);
+    let lists = sequences(nent, 0, 3);
     let probes: Vec<Serial> = d.serials.iter().map(|s| s.1).collect();
+    let few_windows = [(1usize, 3usize), (0, 4), (2, 2), (0, 0), (3, 4)];
     let mut cases = vec![];
     for n in 0..d.serials.len() { for &(a, b) in &d.windows { for l in &lists { for nm in 0..3 {
-        if !ctx.tier.is_thorough() && nm != 1 && l.len() == 3 { continue }
-        cases.push(CrlCase { number: n, this: a, next: b, entries: l.iter().map(|&k| ent_ix[k]).collect(), issuer_name: nm, key: 0 });
+        // issuer-name variants for lists of <= 2 (thorough) / <= 1 (quick); quick thins the windows for lists of 3
+        if nm != 1 && l.len() > if thorough { 2 } else { 1 } { continue }
+        if !thorough && l.len() == 3 && !few_windows.contains(&(a, b)) { continue }
+        cases.push(CrlCase { number: n, this: a, next: b, entries: l.clone(), issuer_name: nm, key: 0 });
     }}}}
-    for k in 1..8 { cases.push(CrlCase { number: 3, this: 1, next: 3, entries: vec![ent_ix[1], ent_ix[0]], issuer_name: 0, key: k }) }
+    for k in 1..8 { cases.push(CrlCase { number: 3, this: 1, next: 3, entries: vec![1, 0], issuer_name: 0, key: k }) }
     run_cases(ctx, &sp, "crl", &cases,
         |c| format!("crl number={} this={} next={} revoked=[{}] issuer={} key={}", d.serials[c.number].0, INSTANT_NAMES[c.this], INSTANT_NAMES[c.next],
-            c.entries.iter().map(|&i| format!("{}@{}", d.serials[i].0, if i < 5 { INSTANT_NAMES[i] } else { "T0" })).collect::<Vec<_>>().join(","), NAME_NAMES[c.issuer_name], c.key),
+            c.entries.iter().map(|&i| format!("{}@{}", d.serials[ent[i].0].0, if ent[i].1 < 5 { INSTANT_NAMES[ent[i].1] } else { "T0" })).collect::<Vec<_>>().join(","), NAME_NAMES[c.issuer_name], c.key),
         |c| {
             let mut r = CaseResult::default();
             let built = match guard(|| {
-                let entries: Vec<CrlEntry> = c.entries.iter().map(|&i| CrlEntry::new(d.serials[i].1, when(i))).collect();
+                let entries: Vec<CrlEntry> = c.entries.iter().map(|&i| CrlEntry::new(d.serials[ent[i].0].1, when(ent[i].1))).collect();
                 TbsCertList::new(RpkiSignatureAlgorithm::default(), d.issuer_name(c.issuer_name, c.key), d.instants[c.this], d.instants[c.next],
                     entries, d.signer.public(c.key).key_identifier(), d.serials[c.number].1).into_crl(&d.signer, &Kid(c.key))
             }) {
@@ -1228,7 +1296,7 @@ fn space_crl(ctx: &Ctx, d: &Dom) {
             }
             r
         });
-    sp.done(true, &format!("{} input tuples; revocation lists of 0-3 out of {} in every order", cases.len(), nent));
+    sp.done(true, &format!("{} input tuples; {} revocation lists (sequences of 0-3 out of {} with repetition)", cases.len(), lists.len(), nent));
 }
 
 //============ CA side: CSR, identity certificates, signed messages ===========
